@@ -22,7 +22,7 @@ class Spec(CheckSpec):
         "op-kind trace) pairs"
     )
     assumptions = ["load and bandwidth are compared exactly (the code's own admission test is exact)"]
-    required_probes = ["c18_link_refused_frame", "c18_nested_exchange", "c18_link_half_full"]
+    required_probes = ["c18_link_refused_frame", "c18_nested_exchange", "c18_link_half_full", "c18_air_transmission", "c18_air_refused_frame"]
 
     def budget(self, tier: str) -> float:
         return 100.0 if tier == "quick" else 1500.0
@@ -37,6 +37,8 @@ class Spec(CheckSpec):
         for i in range(n):
             seed = base_seed * 1000003 + 180000000 + i
             prof = {"tight_links": 0.7, "push": 0.1, "n_green": (1, 3), "n_red": (1, 2), "avoid": ["listen_on_ports", "routing_loop"], "obs": i % 3 == 0}
+            if i % 4 == 3:
+                prof["topologies"] = ["wireless"]  # wireless channel clause: two wireless routers, channel capacity of a few frames
             yield {"seed": seed, "profile": prof, "n_ops": 40, "monitors": mons, "op_mix": {"step": 0.85, "reset": 0.03, "fault": 0.12}}
         shipped = [("data_manipulation.yaml", 40, 50), ("uc7_config.yaml", 25, 30)]
         for name, mel, nops in shipped:
